@@ -328,3 +328,13 @@ COQ_PROPS = (list(COQ_PROPS) if isinstance(COQ_PROPS, (list, tuple)) else [COQ_P
 THEOREMS = list(THEOREMS) + ['SRC_valid_classes', 'SRC_class_valid', 'SRC_multiplicity', 'SRC_is_constant', 'SRC_is_repeating', 'SRC_const_period', 'SRC_n_slices']
 TABLES = sorted(set(list(globals().get('TABLES') or ['t_classes', 't_ext_tol']) + ['t_src_ext', 't_classes', 't_ext_tol']))
 TRUSTED_BASE = list(TRUSTED_BASE) + ['tools/tables/py2coq.py + t_src_ext.py: typed fail-closed translator of is_constant, is_repeating, get_valid_classes, get_multiplicity, _get_const_period, n_slices into Gallina; coq/Common/PyOps2.v as the meaning of the translated primitives']
+
+
+# end-to-end composition (integrator): conv_full (coq/Conv/Full.v) threads the permutation, flip bit and final affine that
+# the geometry half computes into the embed step exactly as DicomStack.to_nifti does; theorems in Props/C06conv.v
+from props import convfull as _convfull
+COQ_PROPS = (list(COQ_PROPS) if isinstance(COQ_PROPS, (list, tuple)) else [COQ_PROPS]) + ['Props/C06conv.v']
+THEOREMS = list(THEOREMS) + ['C06_conversion_canonical', 'C06_conversion_const_readable', 'C06_conversion_per_volume', 'C06_conversion_den']
+COQ_EXTRA_TARGETS = list(globals().get('COQ_EXTRA_TARGETS') or []) + ['Conv/FullCorr.vo']
+TABLES = sorted(set(list(globals().get('TABLES') or []) + ['t_classes', 't_ext_tol', 't_stack', 't_filter', 't_time', 't_conv']))
+PARTS = list(PARTS) + [_convfull.FullPart]
